@@ -330,6 +330,40 @@ def run_real(spec):
                 res.violation("auto-id-equals-explicit-id", gy.id)
         consistent("after auto/explicit collision")
         res.case(core.h64("real-collisions", nxt))
+        # membership is about the gateway *object*: another group's gateway with the same id is not a member,
+        # nor is an exited gateway whose explicit id has been reused
+        other = execnet.Group()
+        try:
+            og = other.makegateway("popen//id=%s" % list(g)[0].id)
+            if og in g or og in list(g):
+                res.violation("foreign-gateway-with-same-id-reported-as-member", og.id)
+            try:
+                got = g[og]
+                res.violation("lookup-by-foreign-gateway-object-succeeded", f"{og.id} -> {got!r}")
+            except KeyError:
+                pass
+            if g[og.id] is og:
+                res.violation("lookup-by-id-returned-foreign-gateway", og.id)
+        finally:
+            other.terminate(2.0)
+        old = g.makegateway("popen//id=reused")
+        old.exit()
+        new = g.makegateway("popen//id=reused")
+        if old in g or g["reused"] is not new:
+            res.violation("exited-gateway-still-member-after-id-reuse", "reused")
+        try:
+            g[old]
+            res.violation("lookup-by-exited-gateway-object-succeeded", "reused")
+        except KeyError:
+            pass
+        try:
+            old.exit()  # a second exit of the old object is a harmless no-op
+        except BaseException as e:
+            res.violation(f"second-exit-of-replaced-gateway-raised:{type(e).__name__}", str(e))
+        if new not in g or g[new] is not new:
+            res.violation("lookup-disagrees-with-iteration", "after id reuse")
+        consistent("after id reuse")
+        res.case(core.h64("real-id-reuse"))
         # exit of one gateway: lookups follow
         victim = rng.choice(list(g))
         victim.exit()
